@@ -334,6 +334,112 @@ def judge_native(pid, w, nv):
     return None
 
 
+# ---- C15 in the single-script (Cram / --cram-compat) executor --------------------------------------------------------------------
+
+def h_script_skip(prog, n_max):
+    """BashScriptExecutor::execute_all with the subprocess replaced by a scripted script run: the compiled script's stdout carries one
+    divider line per finished test case with its exit code; a test case may also end the whole script (`exit c`)"""
+    import itertools
+    from mir_exec import MapBuf, Opaque, Slice, StringBuf, VecBuf, find_method, mk_struct, new_ref
+    from mir_models import ok, as_str
+    from props.c13 import divider
+
+    class ScriptModels(X.ExecModels):
+        def __init__(self):
+            super().__init__(prog)
+            import re as _re
+            ins = lambda pat, fn: self.table.insert(0, (_re.compile("^(?:%s)$" % pat), fn))
+            rnd = [n for n in prog.funcs if n == "random_string" or n.endswith("::random_string")]
+            for n in rnd:
+                self.overrides[n] = lambda ctx, fname, args: StringBuf([SInt(ord(c), "char") for c in "SALT"])
+            runs = [n for n in prog.funcs if "subprocess_runner.rs" in n and n.endswith("::run")]
+            for n in runs:
+                self.overrides[n] = lambda ctx, fname, args: self._run(ctx, args)
+            ins(r"anyhow::__private::format_err|anyhow::error::<impl anyhow::Error>::msg::<.*>|anyhow::Error::msg::<.*>", lambda c, m, a: Opaque("anyhow"))
+            ins(r"shell_escape::unix::escape|shell_escape::escape", lambda c, m, a: a[0])
+
+        @staticmethod
+        def _run(ctx, args):
+            codes, ends_at, final = ctx.notes["codes"], ctx.notes["ends_at"], ctx.notes["final"]
+            ctx.notes["script_text"] = "".join(chr(c.v) if c.concrete else "?" for c in as_str(field_of(deref(args[2]), "shell_expression")).chars)
+            out = b""
+            for i, c in enumerate(codes):
+                out += b"o%d\n" % i
+                if ends_at is not None and i == ends_at:
+                    break                      # `exit c` inside test case i: the script ends before its divider is printed
+                out += divider(b"SALT", i, c)
+            return ok(mk_struct("Output", stderr=Agg("OutputStream", None, [VecBuf([], "u8")]),
+                                stdout=Agg("OutputStream", None, [VecBuf([SInt(b, "u8") for b in out], "u8")]),
+                                exit_code=Agg("ExitStatus", "Code", [mk_int(final, "i32")])))
+
+    def mk(codes, ends_at, t, d):
+        def setup(ctx):
+            ctx.notes.update(codes=codes, ends_at=ends_at, final=(codes[ends_at] if ends_at is not None else 0), t=t, d=d)
+            opt = lambda v: none() if v is None else some(mk_int(v, "i32"))
+            tcs = []
+            for i in range(len(codes)):
+                cfg = mk_struct("TestCaseConfig", detached=none(), environment=MapBuf([]), keep_crlf=some(SBool(True)),
+                                output_stream=some(Agg("OutputStreamControl", "Combined", [])), skip_document_code=opt(t),
+                                strip_ansi_escaping=none(), timeout=none(), wait=none())
+                tcs.append(mk_struct("TestCase", title=StringBuf([]), shell_expression=StringBuf([SInt(ord(c), "char") for c in "cmd%d" % i]),
+                                     expectations=VecBuf([]), exit_code=none(), line_number=mk_int(i + 1, "usize"), config=cfg))
+            dflt = mk_struct("TestCaseConfig", detached=none(), environment=MapBuf([]), keep_crlf=none(), output_stream=none(),
+                             skip_document_code=opt(d), strip_ansi_escaping=none(), timeout=none(), wait=none())
+            doc = mk_struct("DocumentConfig", append=VecBuf([]), defaults=dflt, prepend=VecBuf([]), shell=none(), total_timeout=none())
+            cx = mk_struct("Context", work_directory=Opaque("work"), temp_directory=Opaque("tmp"), file=Opaque("file"), config=doc)
+            return [tcs, cx]
+        return setup
+
+    def drive(ctx, args):
+        """<BashScriptExecutor as Executor>::execute_all with the script run replaced by its scripted output"""
+        f = find_method(ctx.program, "bash_script_executor.rs", "execute_all")
+        ex = Agg("BashScriptExecutor", None, [Opaque("shell")])
+        return ctx.call(f, [new_ref(ex), Slice([new_ref(t_) for t_ in args[0]]), new_ref(args[1])])
+
+    def post(ctx, args, kind, value):
+        if kind != "return":
+            return False
+        codes, ends_at, t = ctx.notes["codes"], ctx.notes["ends_at"], ctx.notes["t"]
+        eff = t if t is not None else 80          # the test cases' own code (the parser has already merged the document's defaults into it)
+        ran = codes if ends_at is None else codes[:ends_at + 1]
+        want_skip = any(c == eff for c in ran)
+        is_skip = value.variant == "Err" and value.fields[0].variant == "Skipped"
+        return is_skip == want_skip
+    inputs = []
+    for n in range(1, n_max + 1):
+        for codes in itertools.product((0, 7, 80), repeat=n):
+            for ends_at in [None] + list(range(n)):
+                for t, d in ((None, None), (7, None), (7, 7), (7, 9), (9, 7), (80, 9)):
+                    inputs.append(("codes=%s ends-at=%s skip-code test=%s document=%s" % (list(codes), ends_at, t, d), mk(list(codes), ends_at, t, d)))
+    h = e2.Harness("script_executor_skip_code", drive, inputs, post, native=None, judge=None,
+                   describe="single-script executor: Err(Skipped) ⇔ a test case that ran exits with the test cases' skip code (else 80) — also when the "
+                            "document's defaults name another code, and when the test case ends the whole script",
+                   bound="1..%d test cases, exit codes {0, 7, 80}, optionally one test case ending the script; skip code of the test cases ∈ {unset, 7, 9, 80} "
+                         "× document default ∈ {unset, 7, 9} (unset test-case code only with unset default: the parser merges the defaults)" % n_max)
+    h.models_cls = ScriptModels
+    return h
+
+
+def replay_script_skip(rep, h, res):
+    """end to end: the real executor and bash on `( exit c )` / `exit c` commands"""
+    for model, r in res.raw_witnesses[:4]:
+        n = r.ctx.notes
+        cmds = [("exit %d" % c if n["ends_at"] == i else "( exit %d )" % c) for i, c in enumerate(n["codes"])]
+        w = {"commands": cmds, "skip": n["t"], "default_skip": n["d"]}
+        nk, nv = NAT.call("script_skip", [w])
+        eff = n["t"] if n["t"] is not None else 80
+        ran = n["codes"] if n["ends_at"] is None else n["codes"][:n["ends_at"] + 1]
+        want = any(c == eff for c in ran)
+        got = nk == "return" and isinstance(nv, dict) and "Skipped" in str(nv.get("Err", ""))
+        if nk == "return" and got != want:
+            rep.violation("script-skip:%s" % ("missed" if want else "spurious"),
+                          "single-script executor on %s with skip code %s (document default %s): %s, the statement prescribes %s"
+                          % (cmds, n["t"], n["d"], nv, "a skipped document" if want else "no skip"),
+                          {"kind": "eval", "fn": "script_skip", "args": [w], "native": [nk, nv], "harness": h.name})
+        else:
+            rep.mismatches.append("%s: solver witness %s did not reproduce natively: %s" % (h.name, w, nv))
+
+
 def run_claims(pid, rep, prog, tier):
     global NAT
     n_max = 2 if tier == "quick" else 3
@@ -398,6 +504,11 @@ def run_claims(pid, rep, prog, tier):
         else:
             rep.mismatches.append("%s: solver witness did not reproduce natively: %s → %s" % (h.name, w, nv))
     e2.record(rep, h, res)
+    if pid == "C15":
+        hs = h_script_skip(prog, 2 if tier == "quick" else 3)
+        ress = e2.run_with_raw(prog, hs, max_witnesses=4)
+        replay_script_skip(rep, hs, ress)
+        e2.record(rep, hs, ress)
     return res
 
 
